@@ -828,6 +828,10 @@ func main() {
 	os.MkdirAll(*out, 0o755)
 	config.SetDefaultProxy("")
 	r := cq.Rand()
+	if *prop == "C01" || *prop == "C03" {
+		piecesMain(os.Args[1], out, n, casef, r)
+		return
+	}
 	var scs []*scenario
 	var rqs []*rqCase
 	var rds []*rdCase
